@@ -20,7 +20,7 @@ RULE = (
     "and without synonyms, bimap, reverse_bimap, all five lookup structures, answers of expand / expand_all / "
     "standardize_curie / compress / standardize_uri on probes). Steps: chain (both case modes), get_subconverter, "
     "remap_curie_prefixes, remap_uri_prefixes, rewire, discover(converter=...) with arguments aimed at effective "
-    "operations, and add_prefix / add_record(merge=True) on a derived converter aimed at records it inherited. After every "
+    "operations (one remapping in four is empty or has only unknown keys, i.e. has nothing to do), and add_prefix / add_record(merge=True) on a derived converter aimed at records it inherited. After every "
     "derivation each input (also when the derivation raises) and after every mutation each direct input of the mutated "
     "converter must equal its snapshot. One evaluation = one executed step. Non-trivial = a history in which a derivation "
     "changed something relative to its input (merge in chain, applied remapping / rewiring, proper subset) or a follow-up "
@@ -146,7 +146,7 @@ class Pool:
             if kind == "chain":
                 derived = curies.chain(convs, case_sensitive=op["case_sensitive"])
             elif kind == "sub":
-                derived = convs[0].get_subconverter(op["prefixes"])
+                derived = convs[0].get_subconverter(iter(op["prefixes"]) if op.get("as_iterator") else op["prefixes"])
             elif kind == "remap_curie":
                 derived = curies.remap_curie_prefixes(convs[0], dict(op["mapping"]))
             elif kind == "remap_uri":
@@ -169,6 +169,8 @@ class Pool:
                 effective = len(drecs) < sum(len(b) for b in before) or (len(convs) == 1 and False)
             elif kind in ("remap_curie", "remap_uri", "rewire"):
                 effective = drecs != before[0]
+                if not effective:
+                    self.stats.cls("ineffective:" + kind)
             elif kind == "sub":
                 effective = 0 < len(drecs) < len(before[0])
             if effective:
@@ -225,7 +227,11 @@ def ops(draw, pool: Pool):
         return {"op": "chain", "inputs": inputs, "case_sensitive": draw(st.booleans())}
     if kind == "sub":
         sel = draw(st.lists(st.sampled_from(ps), max_size=3)) if ps else []
-        return {"op": "sub", "inputs": [i], "prefixes": sel + draw(st.lists(st.sampled_from(["zz", ""]), max_size=1))}
+        return {"op": "sub", "inputs": [i], "prefixes": sel + draw(st.lists(st.sampled_from(["zz", ""]), max_size=1)), "as_iterator": draw(st.booleans())}
+    if kind in ("remap_curie", "remap_uri", "rewire") and draw(st.integers(0, 3)) == 0:
+        # a derivation that has nothing to do (empty mapping / only unknown keys) must still hand out an independent converter
+        mapping = draw(st.sampled_from([[], [["zz-unknown", "zz-other"]], [["zz-unknown", "http://zz-other/"], ["yy-unknown", "http://yy-other/"]]]))
+        return {"op": kind, "inputs": [i], "mapping": mapping}
     if kind == "remap_curie":
         keys = draw(st.lists(st.sampled_from(ps), unique=True, min_size=1, max_size=3)) if ps else ["zz"]
         targets = ps + [f"new{j}" for j in range(4)]
@@ -281,6 +287,6 @@ SUBS = [
         machine=make_machine,
         n={"quick": 1000, "thorough": 2500},
         steps={"quick": 8, "thorough": 20},
-        required_classes=("effective:chain", "effective:remap_curie", "effective:remap_uri", "effective:rewire", "effective:sub", "nt:effective-derivation+merge-into-inherited"),
+        required_classes=("ineffective:remap_curie", "ineffective:remap_uri", "ineffective:rewire", "effective:chain", "effective:remap_curie", "effective:remap_uri", "effective:rewire", "effective:sub", "nt:effective-derivation+merge-into-inherited"),
     )
 ]
